@@ -841,6 +841,17 @@ def gen_C08(rng, tier):
         h = H(rng, desc, bspec=bspec(rng))
         qs = [h.bpoly() for _ in range(3)]
         es = [h.elem(), h.elem(), h.elem("0"), h.elem("1")]
+        if rng.random() < 0.25:
+            # setting an EXISTING term to zero removes it (SetCoef and the exported SetCoefPtr alike), setting it to another value
+            # replaces it; then the polynomial is used again (a surviving mutant of the third mechanical sweep)
+            c1, c2 = rand_elem(desc, rng, special=0), rand_elem(desc, rng, special=0)
+            c1 = c1 if c1 != "0" else "1"; c2 = c2 if c2 != "0" else "1"
+            d1, d2 = "%d:%d" % (rng.randrange(3), rng.randrange(1, 3)), "%d:0" % rng.randrange(3, 5)
+            t = h.newb(); h.ops.append("%s=map@0 %s:%s/%s:%s" % (t, d1, c1, d2, c2)); qs.append(t)
+            op_ = rng.choice(["setcoef", "setcoefp"])
+            h.ops.append("%s %s %s %s" % (op_, t, rng.choice([d1, d2]), es[2])); h.ops.append("obs %s" % t)
+            h.ops.append("%s %s %s %s" % (rng.choice(["setcoef", "setcoefp"]), t, d1, rng.choice(es[:2]))); h.ops.append("obs %s" % t)
+            r = h.newb(); h.ops.append("%s=plus %s %s" % (r, t, t)); qs.append(r)
         if rng.random() < 0.2:
             # (round 10, C08-R10) a polynomial built from element OBJECTS, one object under two exponents; then in-place
             # arithmetic on the polynomial and on the element: the polynomial owns its coefficients
@@ -1176,6 +1187,10 @@ def gen_C13(rng, tier):
             t = h.newb(); h.ops.append("%s=copy %s" % (t, qs[0])); h.ops.append("inc %s %d:%d %s" % (t, rng.randrange(3, 7), rng.randrange(3, 7), one))
             e3 = h.newb(); h.ops.append("%s=embed@1 %s:1" % (e3, t)); qs.append(e3)
         r = h.newb(); h.ops.append("%s=nats@1 %s" % (r, "/".join("%d:%d:%d" % (i, rng.randrange(5), rng.randrange(100)) for i in range(3)))); qs.append(r)
+        # every constructor of the quotient ring reduces: signed coefficients and high exponents too (a surviving mutant of the
+        # third mechanical sweep: PolynomialFromSigned without the reduction)
+        r = h.newb(); h.ops.append("%s=ints@1 %s" % (r, "/".join("%d:%d:%d" % (rng.randrange(6), rng.randrange(2, 7), rng.choice([-3, -1, 1, 2, 50])) for i in range(3)))); qs.append(r)
+        h.ops.append("obs %s" % r)
         for _ in range(rng.randrange(3, 14)):
             a, b = rng.choice(qs), rng.choice(qs)
             k = rng.random()
